@@ -76,6 +76,17 @@ func c05CheckRule(c *Ctx, text, class string, cnt *c05Counters, alphabet []rune,
 				panic(HarnessError(fmt.Sprintf("KMP automaton and strings.Contains disagree on %q for %q", w, r.Shortcut)))
 			}
 		}
+		// the rule's match result must be the same as with the shortcut test removed
+		// (rules of the bundled lists carry other modifiers: not compared)
+		if class != "bundled" && !found {
+			w := wit()
+			if mres := r.Match(rules.NewRequest(w, c03Source, rules.TypeOther)); mres != ia && (kmp.AcceptEnd(s[1]) || !ia) {
+				found = true
+				c.Run.Violate(ev.Violation{Pred: "match-equals-pattern-acceptance", Sig: sig,
+					What:   fmt.Sprintf("rule %q: its pattern %q accepts=%v the URL %q (which contains the shortcut %q: %v) but Match returns %v", text, reString(re, status), ia, w, r.Shortcut, kmp.AcceptEnd(s[1]), mres),
+					Replay: replay})
+			}
+		}
 		if kmp.AcceptEnd(s[1]) {
 			return false // shortcut present: nothing below can violate
 		}
